@@ -1,3 +1,3 @@
 module simrt
 
-go 1.26
+go 1.21
